@@ -156,6 +156,9 @@ func (in *Interp) resetPath(prefix []Decision) {
 	in.heldMutex = map[string]bool{}
 	in.lastStore = map[string]int{}
 	in.atomicSeq = 0
+	in.pools = map[string][]Value{}
+	in.syncMaps = nil
+	in.readers = map[string]int{}
 	in.sched = nil
 	in.parRegions = 0
 	in.solver.asserted = 0
@@ -489,7 +492,7 @@ func Explore(ld *Loaded, cfg *Config) *RunResult {
 						hs.Panics++
 					case "engine":
 						rr.EngineErrs = append(rr.EngineErrs, fmt.Sprintf("%s: %s: %s", h.Name(), res.Engine.kind, res.Engine.msg))
-						if len(rr.EngineErrs) > 20 {
+						if len(rr.EngineErrs) > 400 {
 							stop = true
 						}
 					}
